@@ -53,6 +53,15 @@ reg('C20', 'exploration', 'runtime monitor: invariant oracle (permutation, fixed
     'decoyFasta is executed on generated target sets over the option grid; each decoy is checked against an own implementation of reversal around fixed '
     'positions and the permutation/fixed-position invariants; paired runs check reproducibility and order independence.', TB, 'DESIGN.md section 6 C20')
 
+reg('C18', 'exploration', 'runtime monitor: conservation oracle (partition / union / invertibility / totals) + own model of the source-set priority over real callVariant outputs',
+    'splitFasta, mergeFasta, encodeFasta, decoyFasta+encodeFasta and summarizeFasta are executed on FASTAs produced by real callVariant runs with one GVF per '
+    'source; conservation laws and the database assignment (own implementation of the documented ordering) are checked per peptide; summarize is tied to split.',
+    TB + 'Wildcard source orders (+,*) are not generated; entries are compared modulo the order of their fields.', 'DESIGN.md section 6 C18')
+reg('C19', 'exploration', 'runtime monitor: per-entry predicate oracle + metamorphic relations (idempotence, monotonicity) over real callVariant outputs',
+    'filterFasta is executed on real FASTAs with generated expression tables (values around the cutoff), denylists and flag combinations, with the reference '
+    'as index directory or raw GTF; the kept entries must equal an own evaluation of the documented rule; a second pass must change nothing; stricter settings '
+    'must keep a subset.', TB, 'DESIGN.md section 6 C19')
+
 NOT_YET = 'check not built yet in this session (runtime-monitoring design exists in DESIGN.md section 6); will be claimed when its monitor is committed'
 
 
